@@ -22,6 +22,39 @@ def wait_until(pred, timeout=3.0):
     return pred()
 
 
+class TaskAbort(BaseException):
+    pass
+
+
+def pool_refuses(ctx):
+    """The executor itself refuses work while the handler is still open (what happens during interpreter
+    finalisation): the submission must be refused visibly, never run on the submitting thread."""
+    from deep.task import TaskHandler
+    for how in ("submit_task", "push_snapshot"):
+        th = TaskHandler()
+        th._pool.shutdown(wait=True)
+        ran_on = []
+        outcome = "accepted"
+        try:
+            if how == "submit_task":
+                th.submit_task(lambda: ran_on.append(threading.get_ident()))
+            else:
+                import deep.push.push_service as ps
+                from deep.push.push_service import PushService
+                svc = PushService(type("G", (), {"channel": None, "metadata": lambda self: []})(), th)
+                svc._push_task = lambda snapshot: ran_on.append(threading.get_ident())
+                svc.push_snapshot(type("S", (), {"id": 1})())
+        except BaseException as e:
+            outcome = "refused: %s" % type(e).__name__
+        j = dict(executor="shut down while the handler is open", through=how, outcome=outcome)
+        ctx.case(j, bucket="pool-refuses")
+        if ran_on and ran_on[0] == threading.get_ident():
+            ctx.fail("the executor refused the task and it was run on the submitting (application) thread instead", j,
+                     tag="on-app-thread")
+        elif outcome == "accepted" and not ran_on:
+            ctx.fail("the executor refused the task and the submission was dropped silently", j, tag="dropped-silently")
+
+
 def one_history(ctx, rng):
     from deep.task import TaskHandler, IllegalStateException
     th = TaskHandler()
@@ -37,8 +70,10 @@ def one_history(ctx, rng):
         ran_on[i] = threading.get_ident()
         gates[i].wait(20)
         done[i] = True
-        if fails[i]:
+        if fails[i] == "exc":
             raise ValueError("task %d fails" % i)
+        if fails[i] == "base":
+            raise TaskAbort("task %d aborts" % i)          # a BaseException that is not an Exception
 
     def undone():
         return [i for i in range(len(done)) if not done[i]]
@@ -62,7 +97,7 @@ def one_history(ctx, rng):
         und = undone()
         running = und[:2]
         if r < 0.4 or not gates:
-            f = rng.random() < 0.35
+            f = rng.choice([None, None, None, None, "exc", "exc", "base"])
             try:
                 i = len(gates)
                 gates.append(threading.Event()); fails.append(f); done.append(False); ran_on.append(None); runs.append(0)
@@ -76,7 +111,7 @@ def one_history(ctx, rng):
             else:
                 if began:
                     problems.append(("accepted-after-close", "a submission after flush began was accepted"))
-            ops.append("(Submit %s)" % L.b(f))
+            ops.append("(Submit %s)" % L.b(f is not None))
         elif r < 0.8 and running:
             i = rng.choice(running)
             gates[i].set()
@@ -204,6 +239,7 @@ def run(ctx):
         cj.append(j)
     ctx.correspond("taskhandler", IMPORTS, "tasks_case", "check_tasks_case", lits, cj, shard=100)
     push_service(ctx, rng, 120 if ctx.thorough else 25)
+    pool_refuses(ctx)
 
 
 def replay(ctx, data):
